@@ -152,7 +152,7 @@ partial def startsWithSign (n : Node) : Bool :=
 partial def startsWithParen (n : Node) : Bool :=
   if n.led != .none && n.children.length = 2 then
     match n.children with
-    | some l :: _ => needsBrackets n l 0 || startsWithParen l
+    | some l :: _ => bracketRule n l 0 || startsWithParen l
     | _ => false
   else false
 
@@ -165,7 +165,7 @@ partial def endsInIdentifier (n : Node) : Bool :=
       (n.children.length = 1 && ["plus", "minus", "not", "return", "let"].contains n.name)
     if chain then
       match n.children.getLast? with
-      | some (some c) => !needsBrackets n c (n.children.length - 1) && endsInIdentifier c
+      | some (some c) => !bracketRule n c (n.children.length - 1) && endsInIdentifier c
       | _ => false
     else false
 
@@ -251,9 +251,10 @@ def runCase (payload : String) : String :=
         let (drift, xc) : Option String × Bool :=
           match Ecal.C08.toExpr ast #[] with
           | some (e, atoms) =>
-            let toks := Ecal.C08.printToks Ecal.C08.realPowers Ecal.C08.realExc e
+            let pe := Ecal.C08.annotW Ecal.C08.realPowers Ecal.C08.realExc Ecal.C08.realBr e
+            let toks := pe.flat
             -- PrettyPrint trims the whole text (an indented keyword at the very start loses its indent)
-            let t := trimSpace (Ecal.C08.renderP atoms none (Ecal.C08.annot Ecal.C08.realPowers Ecal.C08.realExc e))
+            let t := trimSpace (Ecal.C08.renderP atoms none pe)
             let exc := Ecal.C08.hasExc Ecal.C08.realPowers Ecal.C08.realExc e
             if t != txt then (some ("MODEL-DRIFT expr=" ++ hexEnc t ++ " full=" ++ hexEnc txt), true)
             else if exc != mul then (some "CLASSIFIER-DRIFT", true)
